@@ -3,7 +3,7 @@
    Writer configuration: cfg0 = {| capmap := None; quick := None |} (identity slot map, full code). *)
 From Verif Require Import Base.Prelude Model.Tree Model.Spec Model.VM Model.Writer Gen.RunnerGen
   Proofs.SpecProofs Proofs.SpecBoundsProofs Proofs.MaskProofs
-  Proofs.VMU Proofs.VMUOps Proofs.VMUOps2 Proofs.VMUOps3 Proofs.CompileBase.
+  Proofs.VMU Proofs.VMUOps Proofs.VMUOps2 Proofs.VMUOps6 Proofs.VMUOps3 Proofs.CompileBase.
 From Coq Require Import Relations ZifyBool.
 
 Definition cfg0 : wcfg := {| capmap := None; quick := None |}.
